@@ -277,7 +277,24 @@ fn point_case(ctx: &mut Ctx, wl: &str, case: u64, rng: &mut Rng) {
     let depth_s = *rng.choose(&[1.0, 0.3, 1e-2, 1e-4, 1e-6]);
     let (magz, mags) = (rng.logpos(-9.0, 10.0), rng.logpos(-9.0, 10.0));
     let z = vc::sample_interior(&ct, rng, true, magz, depth_z);
-    let s = vc::sample_interior(&ct, rng, false, mags, depth_s);
+    let mut s = vc::sample_interior(&ct, rng, false, mags, depth_s);
+    // one point in seven lies ON the central path, s = -mu grad f*(z) (to rounding): the primal-dual scaling has no
+    // secant information there (delta s, delta z are rounding noise) and must fall back to mu H*(z)
+    let central_mu = if rng.bool(0.14) {
+        let kk0 = k.clone();
+        let f0 = move |v: &[Jet3]| kk0.dual_barrier(v);
+        let g0 = Deriv { f: &f0, x: z.clone() }.gradient();
+        // mu such that |s| = mu |grad f*(z)| ~ mu/|z| stays inside the magnitude window of this check (1e-9..1e10)
+        let mu0 = mags * magz;
+        if g0.iter().all(|v| v.is_finite()) {
+            s = g0.iter().map(|v| -mu0 * v).collect();
+            Some(mu0)
+        } else {
+            None
+        }
+    } else {
+        None
+    };
     let (mz, scz) = vc::margin(&ct, &z, true);
     let (ms, scs) = vc::margin(&ct, &s, false);
     let (rz, rs) = (mz / scz, ms / scs);
@@ -348,7 +365,10 @@ fn point_case(ctx: &mut Ctx, wl: &str, case: u64, rng: &mut Rng) {
     j.judge("barrier_dual", (bd - fval).abs(), 1e-12 * cz * (1.0 + fval.abs()), json!({"got": bd, "want": fval}));
 
     // (3) stored gradient / Hessian after update_scaling(Dual, mu)
-    let mu = rng.logpos(-8.0, 4.0);
+    let mu = central_mu.unwrap_or_else(|| rng.logpos(-8.0, 4.0));
+    if central_mu.is_some() {
+        j.ctx.bump("points_on_the_central_path");
+    }
     if !obj.update_scaling(&s, &z, mu, ScalingStrategy::Dual) {
         j.fail("update_scaling_failed", json!({"strategy": "Dual"}));
         return;
